@@ -40,6 +40,7 @@ impl Shape {
     fn apply(&mut self, op: &OOp) {
         match op {
             OOp::Clone(_) if !self.unique && self.owners > 0 && self.owners < 4 => self.owners += 1,
+            OOp::CloneFromOther(_) if !self.unique && self.owners > 1 => self.owners -= 1,
             OOp::DropOwner(_) => {
                 if self.unique {
                     self.uniq_alive = false;
@@ -153,6 +154,9 @@ fn alphabet(focus: Focus, sh: &Shape, max_subs: usize) -> Vec<OOp> {
                 if shared {
                     a.extend([OOp::Clone(0), OOp::Downgrade(0)]);
                     if sh.owners > 1 {
+                        a.push(OOp::CloneFromOther(1));
+                    }
+                    if sh.owners > 1 {
                         a.push(OOp::DropOwner(1));
                     }
                 } else {
@@ -264,12 +268,19 @@ pub fn gen_obs_history(rng: &mut Rng, shared: bool, min: usize, max: usize) -> O
                 5 => OOp::CloneWeak(h),
                 6 => OOp::DropWeak(h),
                 7 => OOp::IntoShared,
-                _ => OOp::Clone(h),
+                _ => {
+                    if rng.chance(1, 3) {
+                        OOp::CloneFromOther(h)
+                    } else {
+                        OOp::Clone(h)
+                    }
+                }
             }
         };
         ops.push(op);
     }
-    ObsHistory { shared, init: gen_val(rng), ops, many: 0 }
+    let same_waker = rng.chance(1, 4);
+    ObsHistory { shared, init: gen_val(rng), ops, many: 0, same_waker }
 }
 
 fn record(ev: &mut Ev, f: &OFacts) {
@@ -400,7 +411,7 @@ fn exh(
         };
         let mut leaf = 0u64;
         dfs(sh, &mut prefix, d, focus, max_subs, &mut |ops| {
-            let h = ObsHistory { shared: *shared, init: A, ops: ops.to_vec(), many: 0 };
+            let h = ObsHistory { shared: *shared, init: A, ops: ops.to_vec(), many: 0, same_waker: leaf % 3 == 1 };
             let case = json!({"gen": gen_name, "case": i, "leaf": leaf});
             judge_flavours(prop, flv, &h, &case, out, nt);
             leaf += 1;
@@ -433,6 +444,26 @@ fn rand(
         let mut rng = Rng::new(mix(seed, mix(hash_of(&gen_name), i)));
         let shared = rng.chance(2, 3);
         let mut h = gen_obs_history(&mut rng, shared, min, max);
+        if i % 16 == 5 {
+            // a storm of Pending polls between two updates: dozens of wakers registered at once, by many
+            // subscribers and by re-polling the same ones
+            h.many = 48;
+            let subs = rng.range(2, 44);
+            let mut storm: Vec<OOp> = (0..subs).map(OOp::Subscribe).collect();
+            storm.push(OOp::Set(0, gen_val(&mut rng)));
+            for k in 0..subs {
+                storm.push(OOp::Poll(k));
+            }
+            for _ in 0..rng.range(20, 90) {
+                storm.push(OOp::Poll(rng.below(subs)));
+            }
+            storm.push(if rng.chance(1, 4) { OOp::DropOwner(0) } else { OOp::Set(0, gen_val(&mut rng)) });
+            for k in 0..subs {
+                storm.push(OOp::Poll(k));
+            }
+            let at = rng.below(h.ops.len() / 3 + 1);
+            h.ops.splice(at..at, storm);
+        }
         if i % 8 == 7 {
             // many subscribers, clones and weak references at once (and so many registered wakers)
             h.many = 16;
